@@ -492,6 +492,15 @@ func summarize(req *p4.WriteRequest) string {
 	return strings.Join(parts, " ")
 }
 
+// EntryCount: entries in all tables of the switch.
+func (s *SimP4) EntryCount() int {
+	n := 0
+	for _, t := range s.Tables {
+		n += len(t)
+	}
+	return n
+}
+
 func summarizeBytes(reqBytes []byte) string {
 	var req p4.WriteRequest
 	if err := proto.Unmarshal(reqBytes, &req); err != nil {
